@@ -150,25 +150,28 @@ def body(chk):
         seed = rng.randint(0, 10 ** 6)
         dep_spec = gen_dep(rng, d) if method == "imc" else None
         n = rng.choice([2, 3, 5, 8, 20]) if (method == "slicing" and d == 1) else rng.choice([2, 3, 4]) if method == "slicing" else rng.choice([2, 5, 12, 30])
-        if it >= n_cases - 3:
-            # large samples: many probability levels per grid cell (anything keyed on a level must use the level's own alpha-cut)
-            method, api = "imc", "function"
-            sname = ["direct", "endpoints", "direct"][n_cases - 1 - it]
-            coq_strat, kw = STRATS[sname]
-            dep_spec = gen_dep(rng, d)
-            n = 1000 if d == 1 else (2000 if d == 2 else 1000)     # multiples of 1000: a cumulated mass then meets the first grid level exactly
-        elif it == n_cases - 4:
-            # as many slices as make k^d = 1000 boxes
-            method, api, sname, n = "slicing", "function", "direct", (1000 if d == 1 else 10)
-            if d == 2:
-                d, kinds = 3, kinds + [rng.choice(["P", "D"])]
+        if it >= n_cases - 4:
+            # large cases, N a multiple of 1000 (a cumulated mass 1/N, 2/N then meets the first grid level exactly): many probability levels per
+            # grid cell (anything keyed on a level must use the level's own alpha-cut). The response is the plain sum of smooth, non-interval
+            # inputs in two or three dimensions, so that the smallest focal intervals are all different (ties would hide which one is used)
+            d = 3 if it == n_cases - 4 else rng.choice([2, 3])
+            kinds = [rng.choice(["P", "D"]) for _ in range(d)]
+            vspec = [gen_var(rng, k) for k in kinds]
+            while any(v.get("ctor") == "staircase" for v in vspec):
                 vspec = [gen_var(rng, k) for k in kinds]
-                e = g13.gen_expr(rng, d, 1)
-                while g13.high_pow(e):
-                    e = g13.gen_expr(rng, d, 1)
-                f, src = g13.make_func(e)
+            e = ("var", 0)
+            for j_ in range(1, d):
+                e = ("add", e, ("var", j_))
+            f, src = g13.make_func(e)
+            api = "function"
+            if it == n_cases - 4:
+                method, sname, n, dep_spec = "slicing", "direct", 10, None       # 10^3 boxes
+            else:
+                method = "imc"
+                sname = ["direct", "endpoints", "direct"][n_cases - 1 - it]
+                dep_spec = gen_dep(rng, d)
+                n = 2000 if d == 2 else 1000
             coq_strat, kw = STRATS[sname]
-            dep_spec = None
         site = f"{method}:{api}:{sname}:{''.join(kinds)}" + (f":{dep_spec['family']}" if dep_spec else "")
         replay = {"kind": "oracle", "vars": vspec, "function": g13.py_src(e), "strategy": sname, "method": method, "api": api, "n": n, "seed": seed, "dependency": dep_spec}
         chk.count(f"{method}-{api}-{sname}-d{d}" + ("-dep" if dep_spec else ""), key=(str(vspec), g13.py_src(e), sname, method, api, n, seed, str(dep_spec)))
@@ -251,6 +254,8 @@ def body(chk):
                        f"(e.g. {bad}; {len(set(focal) - set(exp_focal))} of {len(focal)} differ)", replay)
         # (c) the result is the equal-weight mixture of those images: an independent order-statistic reference, then the library's own stacking
         why = equal_weight_problem(exp_focal, out[1], out[2], len(pv), "0.001", "0.999") if (len(pv) == 200 and pv[0] == 0.001 and pv[-1] == 0.999) else None
+        if os.environ.get("VERIF_DEBUG") and len(exp_focal) >= 1000:
+            print(f"  [debug] large case {site} n={n} N={len(exp_focal)} out0=[{out[1][0]}, {out[2][0]}] lows={sorted(a for a, _ in exp_focal)[:3]} highs={sorted(b for _, b in exp_focal)[:3]} why={why}")
         if why:
             chk.report(site + ":equal-weights", "the returned p-box is not the equal-weight stack of the interval images of the alpha-cut boxes: " + why, replay)
         try:
